@@ -7,10 +7,12 @@
 
 mod crash;
 mod exec;
+mod fault;
 mod iohook;
 mod parse;
 mod profiles;
 mod rec;
+mod workload;
 
 use std::{
     collections::{BTreeSet, HashMap},
@@ -119,6 +121,9 @@ fn main() {
         "replay" => replay(&a),
         "trace" => trace(&a),
         "crash-run" => crash::crash_run(&a),
+        "damage-run" => crash::damage_run(&a),
+        "fault-run" => fault::fault_run(&a),
+        "workload" => workload::workload(&a),
         _ => {
             eprintln!("unknown subcommand");
             2
@@ -291,6 +296,7 @@ struct Driver<'a> {
     /// recorded after every commit (the reference for crash / fault outcomes)
     commits: i64,
     states: bool,
+    max_readers: usize,
 }
 
 impl<'a> Driver<'a> {
@@ -525,7 +531,7 @@ impl<'a> Driver<'a> {
                         if o != json!(["ok"]) {
                             return;
                         }
-                    } else if r < 14 && self.readers.len() < 2 {
+                    } else if r < 14 && self.readers.len() < self.max_readers {
                         self.begin(false);
                     } else if r < 22 && !self.readers.is_empty() {
                         let t = self.readers[self.rng.gen_range(0..self.readers.len())];
@@ -703,6 +709,7 @@ fn trace(a: &Args) -> i32 {
             presized,
             commits: 0,
             states: a.n("states", 0) != 0,
+            max_readers: a.n("max-readers", 2) as usize,
         };
         d.state_event();
         d.run(len);
